@@ -576,6 +576,17 @@ func runC02(c *h.Ctx) {
 			try(strings.ReplaceAll(form, "%s", nt))
 		}
 	}
+	// (c2) a path that is one string literal whose content reads like a path, a
+	// JSON text, a number (what a reader "helpfully" decoding quoted values destroys)
+	for i, lit := range []string{"$.a", "$", "1", "true", "null", "strict $.a[*] ? (@ > 1)", "$.a == 1", "\"x\"", "{\"a\":1}", "[1]", "lax $", "$\"v\"", "1e3", "", " $.a "} {
+		if !c.Mine(i) {
+			continue
+		}
+		q := quoteForPath(lit)
+		try(q)
+		try(q + ".type()")
+		try("$ ? (@ == " + q + ")")
+	}
 	// (d) .** bounds, (e) regex flags
 	for _, a := range []string{"0", "1", "2", "3", "last"} {
 		try("$.**{" + a + "}")
